@@ -19,6 +19,7 @@ from quansino.mc.gcmc import GrandCanonical
 from quansino.mc.isobaric import Isobaric
 from quansino.mc.isotension import Isotension
 from quansino.moves.cell import CellMove
+from quansino.moves.composite import CompositeMove
 from quansino.moves.displacement import DisplacementMove, HamiltonianDisplacementMove
 from quansino.moves.exchange import ExchangeMove
 from quansino.operations.cell import AnisotropicDeformation, IsotropicDeformation, ShapeDeformation
@@ -106,6 +107,8 @@ def build_expr(e, leaves):
         return leaves[e]
     if e[0] == "+":
         return build_expr(e[1], leaves) + build_expr(e[2], leaves)
+    if e[0] == "plain":                       # the plain composite, constructed directly from a list of moves
+        return CompositeMove([build_expr(x, leaves) for x in e[1:]])
     return build_expr(e[1], leaves) * e[2]
 
 
@@ -265,6 +268,13 @@ class Sim:
                 if cur is not None:
                     self.finish(cur, trials, probe)
                 cur = {"name": name, "pre": self.snapshot(), "eval_index": len(self.eval_snaps), "step": mc.step_count}
+                fs = p.get("force_swap")
+                if fs:
+                    # documented one-shot pre-selections: the first exchange move deletes a chosen particle, the second inserts one
+                    e1, e2 = self.leaves[fs[0]], self.leaves[fs[1]]
+                    if len(e1.unique_labels):
+                        e1.to_delete_label = int(e1.unique_labels[cur["step"] % len(e1.unique_labels)])
+                        e2.to_add_atoms = self.exchange.copy()
                 if probe:
                     cur["pre_evals"] = getattr(self.atoms.calc, "evaluations", None)
             if cur is not None:
